@@ -11,6 +11,8 @@ def classify(e, mon):
 
 def run(ctx, pid_mon="C04"):
     ctx.build("h-model", "c04")
+    if getattr(ctx, "replay_file", None):
+        return _m1.replay_case(ctx, pid_mon, lambda ev, i, mon: classify(ev[i], mon))
     q = ctx.quick
     counts = collections.Counter()
     keys = set()
@@ -44,7 +46,7 @@ def run(ctx, pid_mon="C04"):
         for k, part in enumerate(_m1.batches(rows)):
             judge(_m1.replay(ctx, part, cfgs, "%s-%d" % (cfg, k)), "h-model c04 replay (%s)" % cfg)
     if not q:
-        _m1.simulate(ctx, "MC_Market_sim", 40000)
+        _m1.simulate(ctx, "MC_Market_sim", 300)
     # 2. impl -> spec on random configurations / states / sequences
     judge(_m1.random_trace(ctx, "random", 1500 if q else 20000), "h-model c04 random")
     if not q:
